@@ -16,6 +16,10 @@ HardwareSerial Serial;
 TwoWire Wire;
 
 static unsigned long long g_now_us = 0;
+// C15: offset (ms) added to millis() only, so that a run can start near the roll-over of unsigned long
+// (input line "clockbase <ms>", any value up to ULONG_MAX; default 0 = previous behaviour).  The sum wraps modulo
+// 2^(bits of unsigned long) exactly like the counter of a real core; g_now_us stays the monotone time since clock0.
+static unsigned long g_ms_base = 0;
 static std::map<int, std::vector<long>> g_dr, g_ar, g_pi;
 static std::map<int, size_t> g_dr_i, g_ar_i, g_pi_i;
 static std::vector<long> g_drift, g_pass;
@@ -45,7 +49,7 @@ std::string __mock_escape(const std::string &s) {
   return o;
 }
 
-unsigned long __mock_now_ms() { return (unsigned long)(g_now_us / 1000ULL); }
+unsigned long __mock_now_ms() { return (unsigned long)(g_ms_base + (unsigned long)(g_now_us / 1000ULL)); }
 
 static long next_input(std::map<int, std::vector<long>> &m, std::map<int, size_t> &idx, int pin, bool &have) {
   auto it = m.find(pin);
@@ -310,6 +314,7 @@ static void load_inputs() {
       int pin; is >> pin; long v; std::vector<long> vs; while (is >> v) vs.push_back(v);
       (k == "dr" ? g_dr : k == "ar" ? g_ar : g_pi)[pin] = vs;
     } else if (k == "clock0") { long ms; is >> ms; g_now_us = (unsigned long long)ms * 1000ULL; }
+    else if (k == "clockbase") { std::string v; is >> v; g_ms_base = (unsigned long)strtoull(v.c_str(), nullptr, 10); }
     else if (k == "drift") { long v; while (is >> v) g_drift.push_back(v); }
     else if (k == "pass") { long v; while (is >> v) g_pass.push_back(v); }
     else if (k == "serial") { std::string rest; std::getline(is, rest); if (!rest.empty() && rest[0] == ' ') rest.erase(0, 1);
